@@ -60,7 +60,7 @@ def main():
         if meta.get("confirmed"):
             os.makedirs(out, exist_ok=True)
             for f in ("patch.diff", "demo.py", "README.txt"):
-                if os.path.exists(os.path.join(src, f)): shutil.copy(os.path.join(src, f), os.path.join(out, f))
+                if os.path.exists(os.path.join(src, f)) and os.path.abspath(src) != os.path.abspath(out): shutil.copy(os.path.join(src, f), os.path.join(out, f))
             json.dump(meta, open(os.path.join(out, "meta.json"), "w"), indent=1)
         print(json.dumps({k: meta.get(k) for k in ("id", "property", "confirmed", "caught", "demo_clean_exit", "demo_changed_exit", "baseline_ok", "patch_applies")}))
         for t, v in meta.get("check", {}).items():
